@@ -1,12 +1,14 @@
 -------------------------------- MODULE Lease --------------------------------
 (* D layer for C15: contenders calling Campaign / Renew / Resign on the lease  *)
-(* store, time passing, calls that fail before reaching the store and calls    *)
-(* whose reply is lost.  An instance acts as leader from a "leader" answer     *)
+(* store, time passing, calls that fail before reaching the store, calls whose  *)
+(* reply is lost and calls whose reply arrives after the deadline the caller    *)
+(* set (the caller either waited for it or gave up with an error).  An instance acts as leader from a "leader" answer     *)
 (* until one lease period after the call was ISSUED, a failed renewal, or its  *)
 (* own resignation.                                                            *)
 EXTENDS LeaseStore, Sequences, FiniteSets, TLC, Json
 
 CONSTANTS Ids, TTL, MaxTime, MaxHist, EmitCases
+MaxLate == 1     \* late replies per emitted history
 
 VARIABLES store, now, acts, hist
 \* acts[i] = time until which i acts as leader (0 = not leader)
@@ -38,6 +40,21 @@ CampaignFail(i) ==
   /\ acts' = [acts EXCEPT ![i] = 0]
   /\ Rec([op |-> "campaign", i |-> i, f |-> "fail"])
   /\ UNCHANGED <<store, now>>
+\* executed at the store, reply after the caller's deadline: the caller waited (and is told the truth) or gave up
+NoLateYet == ~EmitCases \/ Len(SelectSeq(hist, LAMBDA o : o.f = "late")) < MaxLate
+CampaignLate(i, renew, gaveUp) ==
+  /\ Room /\ NoLateYet
+  /\ LET r == CampaignAt(store, now, i, TTL) IN
+     /\ store' = r[1]
+     /\ acts' = [acts EXCEPT ![i] = IF r[2] = 1 /\ ~gaveUp THEN now + TTL ELSE 0]
+  /\ Rec([op |-> IF renew THEN "renew" ELSE "campaign", i |-> i, f |-> "late"])
+  /\ UNCHANGED now
+ResignLate(i) ==
+  /\ Room /\ NoLateYet
+  /\ store' = ResignAt(store, now, i)[1]
+  /\ acts' = [acts EXCEPT ![i] = 0]
+  /\ Rec([op |-> "resign", i |-> i, f |-> "late"])
+  /\ UNCHANGED now
 Resign(i) ==
   /\ Room
   /\ store' = ResignAt(store, now, i)[1]
@@ -50,7 +67,8 @@ Tick ==
   /\ Rec([op |-> "tick", i |-> "none", f |-> "ok"])
   /\ UNCHANGED <<store, acts>>
 
-Next == (\E i \in Ids : Campaign(i, FALSE) \/ Campaign(i, TRUE) \/ CampaignLost(i) \/ CampaignFail(i) \/ Resign(i)) \/ Tick
+Next == (\E i \in Ids : Campaign(i, FALSE) \/ Campaign(i, TRUE) \/ CampaignLost(i) \/ CampaignFail(i) \/ Resign(i)
+                          \/ (\E g \in BOOLEAN : CampaignLate(i, FALSE, g) \/ CampaignLate(i, TRUE, g)) \/ ResignLate(i)) \/ Tick
 Spec == Init /\ [][Next]_vars
 
 Acting(i) == acts[i] > now
